@@ -1006,4 +1006,26 @@ theorem C39_sharded (m : Int) (shards : List (List Pkt)) :
   ⟨fun rss h => shard_complete_or_error _ m shards rss h,
    fun rows tail hm hin h => shard_row_limit _ m hm shards rows tail hin h⟩
 
+/-! ### the column definitions of a streamed result (translator fact, harness/extract/c39fields.go)
+
+  `writeOKResultStream` keeps `globalFields := rs.Resultset.Fields` across
+  `rs.Free()` and uses it for every following chunk, while `mysql.ResultPool`
+  hands the same `*Result` — whose `Fields` `Reset` has only truncated, so it
+  still points to the same array — to whichever session asks next.  The
+  streaming session's columns (and with them the binary encoding of its rows)
+  stay its own because no function of the result-handling packages stores an
+  element of a `Fields` slice it has not made itself in the same function
+  (`X.Fields = make(…)` / a Resultset just allocated; for the slice of a
+  parameter: made by every caller): the array behind `globalFields` is never
+  written after `readResultColumns` has filled it.  A deterministic probe
+  (GOMAXPROCS(1), GC off) shows the same `*Result` coming back with
+  `len/cap(Fields) = 0/2` on the array `globalFields` points to, and
+  `globalFields` intact after `readResultSet`-style and
+  `createShow…Result`-style reuse — and overwritten by a hypothetical
+  `append(r.Fields, …)`, which is what this fact excludes. -/
+
+/-- **C39/C38 (a streamed result keeps its own column definitions).** -/
+theorem streamed_columns_never_written_in_place :
+    Gen.c39FieldsWrittenInPlace = [] ∧ Gen.c39FieldsWriters ≠ [] := by decide
+
 end GaeaVerif.C39
